@@ -200,8 +200,9 @@ func GRPCMatrix() *m.Design {
 	reset(0)
 	meta := &m.Method{Name: "meta", Payload: obj(
 		fld("token", prim(m.String), true), fld("shard", prim(m.Int64), false), fld("debug", prim(m.Boolean), false), fld("ratio", prim(m.Float64), false),
-		fld("tags", arr(prim(m.String)), false), fld("body", prim(m.String), true), fld("where", m.UserRef("Address"), true)),
-		GRPC: &m.GRPCEndpoint{Metadata: []m.Mapping{{Attr: "token"}, {Attr: "shard"}, {Attr: "debug"}, {Attr: "ratio"}, {Attr: "tags"}}}}
+		fld("tags", arr(prim(m.String)), false), fld("body", prim(m.String), true), fld("where", m.UserRef("Address"), true),
+		fld("seq", prim(m.UInt32), false), fld("big", prim(m.UInt64), false), fld("small", prim(m.Int32), true), fld("f32", prim(m.Float32), false), fld("counts", arr(prim(m.UInt64)), false)),
+		GRPC: &m.GRPCEndpoint{Metadata: []m.Mapping{{Attr: "token"}, {Attr: "shard"}, {Attr: "debug"}, {Attr: "ratio"}, {Attr: "tags"}, {Attr: "seq"}, {Attr: "big"}, {Attr: "small"}, {Attr: "f32"}, {Attr: "counts"}}}}
 	reset(0)
 	meta.Result = obj(fld("ok", prim(m.Boolean), true))
 
